@@ -46,6 +46,14 @@ def anchorFirst : List (Nat × Bool) → List (Nat × Bool)
 def parseName (s : String) : Option Name :=
   if s == "." then some [] else ((s.splitOn ".").filter (· ≠ "")).reverse.mapM String.toNat?
 
+/-- a textual label as a number (ASCII case folded; injective on folded labels) -/
+def labelCode (l : String) : Nat :=
+  l.toList.foldl (fun acc c => acc * 256 + (if 'A' ≤ c ∧ c ≤ 'Z' then c.toNat + 32 else c.toNat)) 1
+
+/-- `Vic.TEST` (leaf first, any case) ↦ root-first folded labels; `.` is the root -/
+def parseLabels (s : String) : Option Name :=
+  if s == "." then some [] else some (((s.splitOn ".").filter (· ≠ "")).reverse.map labelCode)
+
 def showName (n : Name) : String :=
   if n.isEmpty then "." else ".".intercalate (n.reverse.map toString)
 
@@ -63,7 +71,7 @@ def evStep (st : State) (ev : Ev) : State := { st with sys := SdnsVerif.Model.Le
 
 def step (st : State) (w : List String) : State × String :=
   match w with
-  | ["mc", "new"] | ["mnz", "new"] | ["mttl", "new"] | ["nsttl", "new"] | ["lease", "new"] | ["rem", "new"] | ["repl", "new"] | ["dpx", "new"] | ["wr", "new"] | ["hit", "new"] | ["glue", "new"] => (st, "ok")
+  | ["mc", "new"] | ["mnz", "new"] | ["mttl", "new"] | ["nsttl", "new"] | ["lease", "new"] | ["rem", "new"] | ["repl", "new"] | ["dpx", "new"] | ["wr", "new"] | ["hit", "new"] | ["glue", "new"] | ["vref", "new"] => (st, "ok")
   | ["ac", "new"] => ({ st with ac := {}, now := 0 }, "ok")
   | ["ac", "now", t] =>
     match parseI t with
@@ -136,6 +144,11 @@ def step (st : State) (w : List String) : State × String :=
       | some (c, k) => (st, s!"replaced=t cut={showT c} key={k}")
       | none => (st, "replaced=f none")
     | _, _ => (st, "bad-op")
+  | ["vref", ref, auth, q, ns, coh, cls] =>
+    match parseLabels ref, parseLabels auth, parseLabels q with
+    | some ref, some auth, some q =>
+      (st, boolStr (validReferral (ns == "ns") (coh == "incoh") (cls == "in") auth ref q))
+    | _, _, _ => (st, "bad-op")
   | ["hit", hv, stored, ttl, cut, ck] =>
     match parseT hv, parseI stored, ttl.toInt?, parseT cut, ck.toNat? with
     | some hv, some stored, some ttl, some cut, some ck =>
